@@ -255,7 +255,7 @@ def ignorer_units():
 __CPROVER_requires({nonan})
 __CPROVER_ensures(__CPROVER_return_value == (fv == {top}))
 __CPROVER_assigns()
-""", piece={"kind": "slice", "first": r"return filtration\(sh\) ==", "last": r"get_infinity\(\);", "sig": "bool ignorer_infinite(Filtration_value fv)"},
+""", piece={"kind": "slice", "first": r"return filtration\(sh\) ==", "last": r";", "sig": "bool ignorer_infinite(Filtration_value fv)"},
                    scopes=["Filtration_simplex_base_real"], subs=[(r"filtration\(sh\)", "fv")] + [(rx, rep, 0) for rx, rep in NL_SUBS], canary=(r"==", "!="))
         U.append(Unit(f"order.ignorer.infinite_values.{T}", "C03", [f_inf, f_ign], enforce="ignorer_infinite", globals_=G, inputs=["in_f"],
                       replay=mk_replay_ignorer(T),
